@@ -7,7 +7,20 @@ import (
 )
 
 func (self *Interpreter) addVar(ident string, val value.Value) {
-	self.currentModule.scopes[len(self.currentModule.scopes)-1][ident] = &val
+	scopes := self.currentModule.scopes
+	last := len(scopes) - 1
+
+	// A closure which was made earlier refers to this scope and keeps the binding it saw (lexical scoping):
+	// a name which is bound again in the same scope is bound in a copy of it.
+	if _, shadows := scopes[last][ident]; shadows {
+		fresh := make(map[string]*value.Value, len(scopes[last]))
+		for name, cell := range scopes[last] {
+			fresh[name] = cell
+		}
+		scopes[last] = fresh
+	}
+
+	scopes[last][ident] = &val
 }
 
 func (self *Interpreter) getVar(ident string) *value.Value {
